@@ -192,6 +192,12 @@ def wsum : List Act → Nat
   | [] => 0
   | a :: rest => cost a.kind + wsum rest
 
+/-- native stack consumed by the activations when one re-entry of kind `k` takes `bytes k`
+    (the model cannot exhibit these numbers: they are measured parameters) -/
+def stackBytes (bytes : Kind → Nat) : List Act → Nat
+  | [] => 0
+  | a :: rest => bytes a.kind + stackBytes bytes rest
+
 /-- nested `eval_impl` activations including the root -/
 def nativeDepth (s : St) : Nat := s.acts.length + 1
 
